@@ -53,8 +53,10 @@ type engCase struct {
 	B       [4]string         `json:"b"`
 	W       [4]string         `json:"w"`
 	MinIDF  string            `json:"min_idf"`
-	IDF     []string          `json:"idf"`   // idf(n, df) for df = 0..n
-	Fuzzy   []*int            `json:"fuzzy"` // raw matcher score per entry (null: no match)
+	IDF     []string          `json:"idf"`          // idf(n, df) for df = 0..n
+	Fuzzy   []*int            `json:"fuzzy"`        // raw matcher score per entry (null: no match)
+	LegacyW [][]int           `json:"legacy_words"` // strings.Fields(strings.ToLower(query))
+	Legacy  []string          `json:"legacy"`       // calculateScore per entry for strings.Fields(strings.ToLower(query)) and the context boosts (oracle of Model/Legacy.v)
 	NLP     engNLP            `json:"nlp"`
 	Obs     []eRes            `json:"obs"`
 	Extra   map[string][]eRes `json:"extra"`
@@ -306,6 +308,11 @@ func engRun(c *engCase, cmds []database.Command, dir string) {
 		c.Extra["cached_after_refresh"] = projectResults(rdb.Database, rdb.SearchWithOptionsAndCache(q, o))
 	}()
 	c.Extra["legacy_pipeline"] = projectResults(db, db.SearchWithPipelineOptions(q, o))
+	lw := strings.Fields(strings.ToLower(q))
+	c.LegacyW = intsList(lw)
+	for i := range db.Commands {
+		c.Legacy = append(c.Legacy, hexf(database.VerifLegacyScore(&db.Commands[i], lw, o.ContextBoosts)))
+	}
 	engRespelled(c, db, q, o)
 	c.Extra["search"] = projectResults(db, db.Search(q, o.Limit))
 }
